@@ -215,7 +215,28 @@ pub fn run(args: &Args) -> ! {
     let mut total = Acc::default();
 
     // ---- 1. invalid arguments ------------------------------------------------
-    for bad in [vec!["("], vec!["-g", "[", "needle"], vec!["-E", "no-such-encoding", "needle"], vec!["--no-such-flag", "needle"], vec!["-t", "nosuchtype", "needle"], vec!["--max-count", "x", "needle"]] {
+    let invalid: Vec<Vec<&str>> = vec![
+        // patterns
+        vec!["("], vec!["-e", "("], vec!["a{2,1}"], vec![r"\p{nosuchclass}"], vec!["(?P<n>a)(?P<n>b)"], vec!["-e", "ok", "-e", "[z-a]"], vec!["-f", "no-such-pattern-file"],
+        vec!["--pcre2", "needle"], vec!["--engine", "bogus", "needle"],
+        // globs, wherever they are accepted
+        vec!["-g", "[", "needle"], vec!["--iglob", "[", "needle"], vec!["-g", "{a,b", "needle"], vec!["-g", "a[z-a]", "needle"],
+        vec!["--pre-glob", "[", "needle"], vec!["--pre-glob", "{a,b", "needle"], vec!["--pre", "cat", "--pre-glob", "[", "needle"], vec!["--no-pre", "--pre-glob", "a[z-a]", "needle"],
+        // types
+        vec!["-t", "nosuchtype", "needle"], vec!["-T", "nosuchtype", "needle"], vec!["--type-add", "malformed", "needle"], vec!["--type-add", "x:include:nosuchtype", "needle"],
+        // encodings, numbers, sizes
+        vec!["-E", "no-such-encoding", "needle"], vec!["--max-count", "x", "needle"], vec!["-A", "x", "needle"], vec!["-B", "-1", "needle"], vec!["-C", "x", "needle"],
+        vec!["-j", "x", "needle"], vec!["--max-depth", "x", "needle"], vec!["--max-filesize", "1X", "needle"], vec!["--max-columns", "x", "needle"],
+        vec!["--dfa-size-limit", "1Q", "needle"], vec!["--regex-size-limit", "x", "needle"],
+        // choices
+        vec!["--sort", "bogus", "needle"], vec!["--sortr", "bogus", "needle"], vec!["--color", "bogus", "needle"], vec!["--colors", "bogus", "needle"],
+        vec!["--hyperlink-format", "{nosuchvariable}", "needle"], vec!["--generate", "bogus"],
+        // flags
+        vec!["--no-such-flag", "needle"], vec!["-~", "needle"], vec!["--max-count"],
+        // the same under output modes that could print something first
+        vec!["--files", "-g", "["], vec!["--files", "--pre-glob", "["], vec!["-c", "--pre-glob", "[", "needle"], vec!["--json", "-t", "nosuchtype", "needle"], vec!["-l", "--iglob", "{a", "needle"],
+    ];
+    for bad in invalid {
         let out = Command::new(&rg).current_dir(scratch.path.join("mixed")).arg("--no-config").args(&bad).output().unwrap_or_else(|_| machinery_error("rg"));
         total.runs += 1;
         *total.by_kind.entry("invalid-argument".into()).or_insert(0) += 1;
@@ -375,6 +396,13 @@ pub fn run(args: &Args) -> ! {
             ("missing path", vec!["needle", "nope.txt", "a.txt"], vec!["nope.txt"], 2, true),
             ("quiet with a match and an error", vec!["-q", "needle", "nope.txt", "a.txt"], vec![], 0, false),
             ("--no-messages keeps the status", vec!["--no-messages", "needle", "nope.txt", "a.txt"], vec![], 2, true),
+            ("quiet --stats with a match and an error", vec!["-q", "--stats", "needle", "nope.txt", "a.txt"], vec![], 0, false),
+            ("quiet --json with a match and an error", vec!["-q", "--json", "needle", "nope.txt", "a.txt"], vec![], 0, false),
+            ("quiet --stats, error after the match", vec!["-q", "--stats", "needle", "a.txt", "nope.txt"], vec![], 0, false),
+            ("quiet --stats over a directory with an unreadable entry", vec!["-q", "--stats", "-j1", "--sort", "path", "needle"], vec![], 0, false),
+            ("quiet --stats, two threads, unreadable entry", vec!["-q", "--stats", "-j2", "needle"], vec![], 0, false),
+            ("quiet without a match but with an error", vec!["-q", "nomatchatall", "nope.txt", "a.txt"], vec![], 2, false),
+            ("--stats with a match and an error (not quiet)", vec!["--stats", "needle", "nope.txt", "a.txt"], vec!["nope.txt"], 2, true),
         ];
         for (name, a, must_name, status, a_result) in cases {
             let mut cmd = Command::new("setpriv");
@@ -503,7 +531,7 @@ pub fn run(args: &Args) -> ! {
     ev.set("faults_by_kind", json!(total.by_kind));
     ev.set(
         "rule",
-        "real rg binary on 3 trees (mixed / all files match / none matches) x 6 modes (standard, -c, -l, -q, --files, --json) x -j1 and -j2 (the latter under the replay scheduler's default schedule so that 'the k-th call' is well defined): the run is repeated under `strace -e inject=<syscall>:error=<E>:when=k` for EVERY k up to the number of such calls in the fault-free run, for openat->EACCES, openat->ENOENT, read->EIO, getdents64->EACCES, write->EPIPE; the injected call's path is recovered from the strace log (faults on start-up files are skipped). Decision table: a fault on a tree path => a diagnostic naming it on stderr, exit status 2 (0 allowed for -q with a match), the other files' results identical to the fault-free run; EPIPE on stdout => status 0, empty stderr, no further file opened (promptly). Plus: invalid regex / glob / encoding / flag / type / number => status 2 and empty stdout; real faults as uid 65534 (mode-000 file and directory, dangling symlinks, missing paths, -q and --no-messages variants); the stdout consumer closing after k bytes for every k up to 120 (400) and around every buffer boundary, in 7 variants (-j1/-j2, --line-buffered, --files, -c, --json) => status 0 and no diagnostic.",
+        "real rg binary on 3 trees (mixed / all files match / none matches) x 6 modes (standard, -c, -l, -q, --files, --json) x -j1 and -j2 (the latter under the replay scheduler's default schedule so that 'the k-th call' is well defined): the run is repeated under `strace -e inject=<syscall>:error=<E>:when=k` for EVERY k up to the number of such calls in the fault-free run, for openat->EACCES, openat->ENOENT, read->EIO, getdents64->EACCES, write->EPIPE; the injected call's path is recovered from the strace log (faults on start-up files are skipped). Decision table: a fault on a tree path => a diagnostic naming it on stderr, exit status 2 (0 allowed for -q with a match), the other files' results identical to the fault-free run; EPIPE on stdout => status 0, empty stderr, no further file opened (promptly). Plus: 50 invalid argument sets (regex, pattern file, engine, globs for -g / --iglob / --pre-glob with and without a preprocessor, types, encoding, numbers, sizes, sort / colour / hyperlink choices, unknown flags, under --files / -c / -l / --json) => status 2, a diagnostic and empty stdout; real faults as uid 65534 (mode-000 file and directory, dangling symlinks, missing paths, -q, -q --stats, -q --json and --no-messages variants); the stdout consumer closing after k bytes for every k up to 120 (400) and around every buffer boundary, in 7 variants (-j1/-j2, --line-buffered, --files, -c, --json) => status 0 and no diagnostic.",
     );
     ev.set("samples", json!([{"tree": "mixed", "mode": "standard", "fault": "openat:error=EACCES:when=17 (d/c.txt)"}, {"pipe": "rg -j1 --line-buffered needle, consumer closes after 37 bytes"}]));
     ev.assume("strace's fault injector; setpriv to drop root so that mode 000 is effective");
